@@ -65,4 +65,19 @@ PROPS = {
         "level_text": "Theorem no_unnoised_path (Props/C02.lean): for any rule table satisfying the decidable local condition LocalSafe, any tree and any consistent derivation whose root is public/published/DP/synthetic, every protected table is replaced by synthetic data or lies below a DP aggregation; generated_local_safe discharges LocalSafe by `decide` for the table regenerated from /repo on every run (4 configurations). The real compiler's output is audited structurally on generated queries.",
         "level_note": "Trusted: Lean kernel; translator; harness. Modelled, not verified: the Rewriter's match arms are covered only by the lineage audit of its output (a pass-through of a PUP->DP reduce shows up as a missing noise Map).",
     },
+    "C03": {
+        "lean_modules": ["QrlewModel.Props.C03"],
+        "streams": [
+            {"name": "dpevent", "n_quick": 20000, "n_thorough": 1000000},
+            {"name": "dpquery", "n_quick": 4000, "n_thorough": 200000, "min_per_proc": 100},
+        ],
+        "rule": "dpevent: random lists of (nested) events with zero and non-zero multipliers folded by compose; non-trivial = at least two non-no-op mechanisms. "
+                "dpquery: generated single-reduce aggregation queries (1-4 aggregates among sum/avg/count/variance/stddev and DISTINCT variants, ungrouped / public-valued keys / private-valued keys needing tau-thresholding, "
+                "joins along the privacy-unit path, WHERE) x DpParameters grid (eps in {0.1..10}, delta in {0.05..1e-8}, share, multiplicity, max groups); σ, C, τ literals are read off the rewritten IR; non-trivial = at least 2 noise sites or a threshold",
+        "trusted_base": COMMON_TRUST + ["Mathlib Real.sqrt/Real.log", "IR extraction of σ, C, τ (harness/src/ir.rs)", "statrs inverse normal CDF (used through the library's own gaussian_tau in the τ oracle)"],
+        "assumptions": ["classical Gaussian calibration (Dwork-Roth Thm A.1, valid for ε<1) and basic composition are the property's own premises, not proved", "IEEE rounding is not modelled: σ compared with relative tolerance 1e-9"],
+        "technique": "Lean 4 proof (event composition keeps all mechanisms; recorded multiplier <= applied multiplier over ℝ; budget split sums) + Float instance of the same definitions compared with σ/C/event extracted from the real rewritten IR + independent budget oracle",
+        "level_text": "Theorems (Props/C03.lean): composition/collection of events records exactly the non-no-op mechanisms in order (any nesting); over ℝ, for every n≥1, ε,δ>0 the recorded multiplier m(ε,δ) is ≤ the applied multiplier m(ε/n,δ/n) = σ/C; the even split of (ε,δ) over sums and between thresholding and aggregates adds up to the budget. The same budget definitions, instantiated on Float, reproduce the σ literals, the Gaussian entries and the EpsilonDelta entry of the real rewriting on generated queries; an implementation-side oracle re-derives the implied ε from σ/C and checks basic composition and the thresholding record.",
+        "level_note": "Trusted: Lean kernel, Mathlib analysis; harness IR extraction. Not proved: that the classical calibration gives (ε,δ)-DP. Queries whose aggregates share a sum are budgeted conservatively by the code and are only checked by the oracle, not compared with the model.",
+    },
 }
